@@ -49,6 +49,17 @@ def inject(rng, sp, nodes, fault):
         m.children.insert(pos, new)
         data, off = encode_locate(nodes, new)
         return data, "E:cid:%d:%x" % (off, rid), "def"
+    if fault == "hier" and rng.random() < 0.3:
+        # after the (known-size) document has ended: an element that needs at least one open master - a child, or a global element with a
+        # minimum depth such as Crc32 (1-) - at the top level, where the chain of open masters is empty
+        if any((n.enc == "u" or isinstance(n.enc, tuple)) for n, ch in flatm):
+            return None
+        bad = [i for i in sp.ty if not E.matches(sp.get_path(i), []) and sp.get_type(i) != "M"]
+        if not bad:
+            return None
+        bid = rng.choice(bad)
+        new = E.Node(E.rand_value_tag(rng, bid, sp.get_type(bid), big=False))
+        return E.encode(nodes) + E.encode([new]), "E:hier:%x:-" % bid, "def"
     if fault == "hier":
         bad = [i for i in sp.ty if not E.matches(sp.get_path(i), chain) and sp.get_type(i) != "M"]
         bad = [i for i in bad if E.closed_by(sp, [(c, True) for c in chain], i) == 0]
